@@ -223,9 +223,8 @@ func (s *S3Proxy) ListObjectVersions(ctx context.Context, input *s3.ListObjectVe
 	if input.VersionIdMarker != nil && *input.VersionIdMarker == "" {
 		input.VersionIdMarker = nil
 	}
-	if input.MaxKeys != nil && *input.MaxKeys == 0 {
-		input.MaxKeys = nil
-	}
+	// max-keys=0 is a request for an empty page, not for the default limit:
+	// MaxKeys is forwarded as given (the front end already defaults it to 1000)
 	if input.ExpectedBucketOwner != nil && *input.ExpectedBucketOwner == "" {
 		input.ExpectedBucketOwner = nil
 	}
@@ -1143,9 +1142,6 @@ func (s *S3Proxy) ListObjects(ctx context.Context, input *s3.ListObjectsInput) (
 	if input.Marker != nil && *input.Marker == "" {
 		input.Marker = nil
 	}
-	if input.MaxKeys != nil && *input.MaxKeys == 0 {
-		input.MaxKeys = nil
-	}
 	if input.Prefix != nil && *input.Prefix == "" {
 		input.Prefix = nil
 	}
@@ -1179,9 +1175,6 @@ func (s *S3Proxy) ListObjectsV2(ctx context.Context, input *s3.ListObjectsV2Inpu
 	}
 	if input.ExpectedBucketOwner != nil && *input.ExpectedBucketOwner == "" {
 		input.ExpectedBucketOwner = nil
-	}
-	if input.MaxKeys != nil && *input.MaxKeys == 0 {
-		input.MaxKeys = nil
 	}
 	if input.Prefix != nil && *input.Prefix == "" {
 		input.Prefix = nil
